@@ -9,7 +9,7 @@
    exit_if_empty [eie] (unless stated) and EVERY schedule [sched] (list of thread steps and clock
    advances).  Tie to /repo: harness/props/C31.py (same schedules on the real class, logs equal). *)
 From RxVerif Require Import Base.Prelude Core.EventLoop Core.EventLoopFacts.
-From RxVerif Require Import Core.EventLoopBatch.
+From RxVerif Require Import Core.EventLoopBatch Core.EventLoopFacts2.
 From Coq Require Import Permutation Sorted.
 Local Open Scope Z_scope.
 
@@ -62,6 +62,52 @@ Theorem C31_not_early : forall eie body t0 progs sched tid t i,
   In (tid, t, EStart i) (c_log (run eie body (init t0 progs) sched)) -> it_due i <= t.
 Proof. exact el_not_early. Qed.
 Print Assumptions C31_not_early.
+
+(* "due time" is tied to the call.  Step lemmas (any state): the first step of schedule(a) /
+   schedule_relative(d, a) allocates the uid, logs ECall and fixes due = clock + max(0, d) (d = 0 for schedule);
+   schedule_absolute(t, a) fixes due = t whatever the clock *)
+Theorem C31_due_recorded : forall ntid s o r a d,
+  (o = SchedNow a /\ d = 0) \/ o = SchedRel d a ->
+  op_step ntid s None (o :: r) =
+    Some (bump s, Some (PS1 (nuid s) a (clock s + Z.max 0 d)), r, [ECall (nuid s) a], false).
+Proof. exact el_due_recorded. Qed.
+Print Assumptions C31_due_recorded.
+
+Theorem C31_due_recorded_abs : forall ntid s t a r,
+  op_step ntid s None (SchedAbs t a :: r) =
+    Some (bump s, (if disposed s then None else Some (PS2 (nuid s) a t)), r,
+          ECall (nuid s) a :: (if disposed s then [ERaise a] else [EPass (nuid s)]), false).
+Proof. exact el_due_recorded_abs. Qed.
+Print Assumptions C31_due_recorded_abs.
+
+(* run level: the call that made an accepted item is in the log (same uid, same action), and its first step
+   happened at or before the item's due time -- unless the due time is the argument of a schedule_absolute
+   call for that action in some program or action body *)
+Theorem C31_accepted_due_linked : forall eie body progs t0 sched i,
+  let c := run eie body (init t0 progs) sched in
+  In (EAcc i) (L c) ->
+  exists tid tc, In (tid, tc, ECall (it_uid i) (it_lbl i)) (c_log c) /\
+    (tc <= it_due i \/ (exists p, In p progs /\ In (SchedAbs (it_due i) (it_lbl i)) p) \/
+                       exists a, In (SchedAbs (it_due i) (it_lbl i)) (body a)).
+Proof. exact el_accepted_due_linked. Qed.
+Print Assumptions C31_accepted_due_linked.
+
+(* without schedule_absolute anywhere: the call happened at or before the due time *)
+Theorem C31_accepted_call_before_due : forall eie body progs t0 sched i,
+  (forall p t a, In p progs -> ~ In (SchedAbs t a) p) -> (forall b t a, ~ In (SchedAbs t a) (body b)) ->
+  let c := run eie body (init t0 progs) sched in
+  In (EAcc i) (L c) ->
+  exists tid tc, In (tid, tc, ECall (it_uid i) (it_lbl i)) (c_log c) /\ tc <= it_due i.
+Proof. exact el_accepted_call_before_due. Qed.
+Print Assumptions C31_accepted_call_before_due.
+
+(* the proviso is needed: schedule_absolute(50) called at 100 is accepted with due 50 (immediately due: it
+   runs at once -- late, never early) *)
+Theorem C31_call_before_due_refuted :
+  L abs_past_witness = [ECall 0 7; EPass 0; EAcc (Item 0 7 50 true); ESpawn 1; ERet 7]%nat /\
+  forall tid tc, In (tid, tc, ECall 0%nat 7%nat) (c_log abs_past_witness) -> ~ tc <= 50.
+Proof. exact el_call_before_due_refuted. Qed.
+Print Assumptions C31_call_before_due_refuted.
 
 (* what runs was accepted (same label, same due time) and passed the is_cancelled() test *)
 Theorem C31_started_was_accepted : forall eie body t0 progs sched i,
@@ -125,6 +171,25 @@ Theorem C31_dispose : forall eie body t0 progs sched1 sched2,
 Proof. exact el_dispose. Qed.
 Print Assumptions C31_dispose.
 
+(* "scheduling raises DisposedException": once the scheduler is disposed (c1), every schedule call that BEGINS
+   afterwards has raised on the calling thread, or that thread still stands at the unlocked `_is_disposed` test
+   of that call -- and its next step is the raise (C31_dispose_raises_next) *)
+Theorem C31_dispose_raises : forall eie body t0 progs sched1 sched2 tid t u a,
+  let c1 := run eie body (init t0 progs) sched1 in
+  let c2 := run eie body c1 sched2 in
+  disposed (c_sh c1) = true ->
+  In (tid, t, ECall u a) (skipn (length (c_log c1)) (c_log c2)) ->
+  (exists t', In (tid, t', ERaise a) (skipn (length (c_log c1)) (c_log c2))) \/
+  (exists st due, nth_error (c_ths c2) tid = Some st /\ tcur st = Some (PS1 u a due)).
+Proof. exact el_dispose_raises. Qed.
+Print Assumptions C31_dispose_raises.
+
+Theorem C31_dispose_raises_next : forall ntid s u a due todo s' cur' todo' out sp,
+  opstep ntid s (Some (PS1 u a due)) todo s' cur' todo' out sp -> disposed s = true ->
+  out = [ERaise a] /\ cur' = None.
+Proof. exact el_dispose_raises_next. Qed.
+Print Assumptions C31_dispose_raises_next.
+
 (* ---- exit_if_empty, nothing lost -------------------------------------------------------------- *)
 (* the thread gives itself up only with empty queues *)
 Theorem C31_exit_only_when_idle : forall eie body t0 progs sched,
@@ -132,6 +197,18 @@ Theorem C31_exit_only_when_idle : forall eie body t0 progs sched,
   thr (c_sh c) = None -> rl (c_sh c) = [] /\ q (c_sh c) = [] /\ inflight c = [].
 Proof. exact el_exit_only_when_idle. Qed.
 Print Assumptions C31_exit_only_when_idle.
+
+(* ... and it DOES give itself up: with exit_if_empty, in every state in which nothing can move, the scheduler
+   is not disposed and the clock is past every accepted due time, the scheduler has no thread and every loop
+   thread ever started has exited (liveness direction of "exits when idle", at quiescence) *)
+Theorem C31_exits_when_idle : forall body t0 progs sched,
+  let c := run true body (init t0 progs) sched in
+  quiescent c = true -> disposed (c_sh c) = false ->
+  (forall i, In (EAcc i) (L c) -> it_due i <= clock (c_sh c)) ->
+  thr (c_sh c) = None /\
+  forall t ph, nth_error (c_ths c) t = Some (TLoop ph) -> ph = LExited.
+Proof. exact el_exits_when_idle. Qed.
+Print Assumptions C31_exits_when_idle.
 
 (* the enqueueing step starts a new thread whenever there is none *)
 Theorem C31_schedule_restarts_thread : forall ntid s u a due todo s' cur' todo' out sp,
@@ -224,4 +301,23 @@ Example C31_ex_disposed_by_other_thread_while_earlier_action_runs :
   map snd (observable (c_log foreign_batch_witness)) =
     [(8, 2); (0, 1); (0, 2); (0, 3); (4, 1); (6, 1); (2, 2); (7, 1); (5, 2); (4, 3); (6, 3); (7, 3)]%nat /\
   quiescent foreign_batch_witness = true.
+Proof. vm_compute. split; reflexivity. Qed.
+
+(* the hypotheses of C31_exits_when_idle on a run with a timed item: quiescent, not disposed, clock past the
+   due time -- the thread has exited *)
+Example C31_ex_exits_when_idle_timed :
+  let c := run true nobody (init 0 [[SchedRel 1000 1%nat]])
+               (steps [0; 0; 0; 1; 1; 1]%nat ++ [MTick 1000] ++ steps (repeat 1%nat 6)) in
+  quiescent c = true /\ disposed (c_sh c) = false /\
+  forallb (fun i => it_due i <=? clock (c_sh c)) (accs (L c)) = true /\ accs (L c) = [Item 0 1 1000 false] /\
+  c_ths c = [TSched None []; TLoop LExited] /\ thr (c_sh c) = None.
+Proof. vm_compute. repeat split; reflexivity. Qed.
+
+(* the hypotheses of C31_dispose_raises: after dispose() both calls of thread 1 begin and raise *)
+Example C31_ex_dispose_raises :
+  let c1 := run false nobody (init 0 [[SchedNow 1%nat; Dispose]; [SchedNow 2%nat; SchedAbs 5 3%nat]]) (steps [0; 0; 0; 0]%nat) in
+  let c2 := run false nobody c1 (steps [1; 1; 1]%nat) in
+  disposed (c_sh c1) = true /\
+  skipn (length (c_log c1)) (c_log c2) =
+    [(1%nat, 0, ECall 1 2); (1%nat, 0, ERaise 2); (1%nat, 0, ECall 2 3); (1%nat, 0, ERaise 3)].
 Proof. vm_compute. split; reflexivity. Qed.
